@@ -399,10 +399,6 @@ func forInflux(m *am, rc *reqCtx) *am {
 	if len(o.Fields) == 0 {
 		o.Fields = append(o.Fields, sfield{"v_last", tLast, 1})
 	}
-	if len(o.Tags) == 0 && len(o.Fields) >= 2 && ev.Known(sigInfluxNoTags) {
-		o.Fields = o.Fields[:1]
-		ev.Class("influx", "excluded_known", 1)
-	}
 	return o
 }
 
@@ -415,7 +411,7 @@ func fit(group string, ms []*am, outside []bool, rc *reqCtx, f format) ([]*am, [
 		m = excludeKnownShapes(group, m, rc, f)
 		switch {
 		case f == fInflux:
-			m = forInflux(m, rc)
+			m = excludeKnownShapes(group, forInflux(m, rc), rc, f)
 			if !expressible(m, rc, f) {
 				panic(fmt.Sprintf("harness: forInflux produced an inexpressible metric: %+v", m))
 			}
@@ -478,6 +474,12 @@ func excludeKnownShapes(group string, m *am, rc *reqCtx, f format) *am {
 			ev.Class(group, "excluded_known", 1)
 			m = &o
 		}
+	}
+	if f == fInflux && len(m.Tags) == 0 && len(m.Fields) >= 2 && m.Comp == nil && ev.Known(sigInfluxNoTags) {
+		o := *m
+		o.Fields = m.Fields[:1]
+		ev.Class(group, "excluded_known", 1)
+		m = &o
 	}
 	if f == fProto && ev.Known(sigProtoCompNaN) && m.Comp != nil {
 		c := *m.Comp
